@@ -40,6 +40,12 @@ func (mc *Machine) installTail(t *rapid.T, plan map[string]int, cfg TxnCfg, onTx
 			mc.OverlapErr = mc.C.Snapshot(&mc.OverlapBuf)
 			busy = false
 		}
+		if mc.BigTailAt != "" && key == mc.BigTailAt && mc.BigTail != nil {
+			mc.BigTailAt = ""
+			busy = true
+			mc.BigTail()
+			busy = false
+		}
 		n := plan[key]
 		if n == 0 {
 			return
@@ -68,7 +74,14 @@ func TestC14(t *testing.T) {
 		defer column.SetVerifHook(nil)
 		cfg := TxnCfg{Prop: "C14", MaxSteps: 5, Deletes: true, Inserts: true, Merges: true, NoStoreOnDel: KFActive("f11-store-and-delete-same-txn"), NoOpAfterLenMerge: KFActive("f15-difflen-merge-reorder")}
 		// layout: empty, one block, several blocks
-		switch rapid.IntRange(0, 6).Draw(t, "layout") {
+		layout := rapid.IntRange(0, 6).Draw(t, "layout")
+		for _, cs := range sch.Cols {
+			if cs.Kind == KString && cs.Merge == MDefault && !cs.Late && rapid.IntRange(0, 2).Draw(t, "prefer-large-layout") == 0 {
+				layout = 6 // a plain string column: the large layout can get log tails of more than 1 MiB
+				break
+			}
+		}
+		switch layout {
 		case 6:
 			// a large state (> 1 MiB, so that the s2 encoder hands blocks to the destination while
 			// chunk latches are still held inside writeState)
@@ -101,6 +114,41 @@ func TestC14(t *testing.T) {
 			mc.ActBulkDelete(t)
 		default:
 			mc.ActPrefill(t, rapid.IntRange(1, 120).Draw(t, "n"), storableCols(mc.M, TxnCfg{}), rapid.Uint64().Draw(t, "seed"))
+		}
+		// large layout with a string column: some snapshots get a log tail of more than 1 MiB (one bulk
+		// transaction that re-writes the string of every row while the snapshot is in progress)
+		bigCol, bigRound := -1, 0
+		if len(mc.M.Rows) > 30000 {
+			for i, cs := range sch.Cols {
+				if cs.Kind == KString && cs.Merge == MDefault && mc.M.ColLive[i] {
+					bigCol = i
+				}
+			}
+		}
+		armBigTail := func(t *rapid.T) string {
+			mc.BigTailAt, mc.BigTail = "", nil
+			if bigCol < 0 || rapid.IntRange(0, 3).Draw(t, "big-tail") != 0 {
+				return ""
+			}
+			mc.BigTailAt = rapid.SampledFrom([]string{"snapshot:pre-chunk:1", "snapshot:pre-chunk:2", "snapshot:pre-close"}).Draw(t, "big-tail-at")
+			mc.BigTail = func() {
+				bigRound++
+				val := Value{S: strings.Repeat(string(rune('a'+bigRound%26)), 40)}
+				name := sch.Cols[bigCol].Name
+				mc.logf("  [during snapshot at %s: bulk transaction re-writing %s of all %d rows]", mc.BigTailAt, name, len(mc.M.Rows))
+				live := mc.M.Live()
+				mc.C.Query(func(txn *column.Txn) error {
+					for _, off := range live {
+						txn.QueryAt(off, func(r column.Row) error { r.SetString(name, val.S); return nil })
+					}
+					return nil
+				})
+				for _, off := range live {
+					mc.M.Rows[off][bigCol] = Cell{Has: true, V: val}
+				}
+				mc.flag("log-tail-over-1MiB")
+			}
+			return " + a bulk transaction of >1 MiB at " + mc.BigTailAt
 		}
 		fds0, files0 := tempLogState()
 		leakCheck := func(what string) {
@@ -190,6 +238,7 @@ func TestC14(t *testing.T) {
 		}
 		consecutive := 0
 		for pi := 0; pi < limit; pi++ {
+			mc.beat()
 			fw := plans[order[pi]]
 			planDesc := fw.String()
 			mc.OverlapAt, mc.OverlapRan = "", false
@@ -197,9 +246,11 @@ func TestC14(t *testing.T) {
 				mc.OverlapAt = rapid.SampledFrom([]string{"snapshot:recorder-open", "snapshot:pre-chunk:0", "snapshot:pre-chunk:1", "snapshot:pre-close", "snapshot:pre-copy"}).Draw(t, "overlap-at")
 				planDesc += " + a second Snapshot call at " + mc.OverlapAt
 			}
+			planDesc += armBigTail(t)
 			remove := mc.installTail(t, mkPlan(t), cfg, nil)
 			err := mc.C.Snapshot(fw)
 			remove()
+			mc.BigTailAt, mc.BigTail = "", nil
 			what := fmt.Sprintf("Snapshot with plan %q (%d calls, %d bytes accepted, %d failed)", planDesc, fw.Calls, fw.Bytes, fw.Failed)
 			if mc.OverlapRan {
 				// refused ("another one might be in progress") or successful - either way it must not leave
@@ -240,8 +291,13 @@ func TestC14(t *testing.T) {
 				// a later snapshot to a healthy writer succeeds and restores correctly
 				mc.CheckFull(t, pi%2 == 1)
 				var buf bytes.Buffer
-				if err := mc.C.Snapshot(&buf); err != nil {
-					mc.fail(t, "after %d failing snapshots (last: %s): Snapshot to a healthy writer failed: %v", consecutive, planDesc, err)
+				tailDesc := armBigTail(t)
+				removeTail := mc.installTail(t, nil, cfg, nil)
+				err := mc.C.Snapshot(&buf)
+				removeTail()
+				mc.BigTailAt, mc.BigTail = "", nil
+				if err != nil {
+					mc.fail(t, "after %d failing snapshots (last: %s): Snapshot to a healthy writer%s failed: %v", consecutive, planDesc, tailDesc, err)
 				}
 				leakCheck("healthy snapshot after failures")
 				rc := newCollectionLive(sch, mc.M.ColLive, column.Options{})
@@ -255,7 +311,7 @@ func TestC14(t *testing.T) {
 				nontrivial = fw.Failed > 0 && (fw.Calls > 1 || fw.Bytes > 0)
 			}
 			RecordCase("C14", fmt.Sprintf("%s\nplan: %s (tail=%v)", mc.Trace[0]+" rows="+fmt.Sprint(len(mc.M.Rows)), planDesc, withTail), nontrivial,
-				map[bool]string{true: "writer-failed", false: "writer-healthy"}[fw.Failed > 0], map[bool]string{true: "with-log-tail", false: "no-log-tail"}[withTail])
+				map[bool]string{true: "writer-failed", false: "writer-healthy"}[fw.Failed > 0], map[bool]string{true: "with-log-tail", false: "no-log-tail"}[withTail], map[bool]string{true: "log-tail-over-1MiB-seen", false: "small-tails-only"}[mc.Flags["log-tail-over-1MiB"]])
 		}
 		mc.CheckFull(t, false)
 	})
